@@ -1,10 +1,10 @@
 package main
 
 import (
-	"os"
 	"bytes"
 	"encoding/hex"
 	"fmt"
+	"os"
 	"strconv"
 	"strings"
 
